@@ -4,6 +4,7 @@ CONSTANTS
   Ops = {"Write", "AsCFFWrite", "Subset", "MakeGlyphNames", "Layout", "ExplainGsub"}
   Variant = "headpatch"
   MaxPar = 2
+  MaxOps = 0
   Gen = FALSE
 INIT Init
 NEXT Next
